@@ -28,6 +28,20 @@ def ctri(v):
     return "UU" if v is None else ("TT" if v else "FF")
 
 
+def cfl(x):
+    """Gallina primitive-float literal with exactly the bits of the Python double (float.hex())."""
+    x = float(x)
+    if x != x:
+        return "PrimFloat.nan"
+    if x in (float("inf"), float("-inf")):
+        return "PrimFloat.infinity" if x > 0 else "PrimFloat.neg_infinity"
+    return f"({x.hex()})%float"
+
+
+def cfl2(a, b):
+    return f"({cfl(a)}, {cfl(b)})"
+
+
 class Grid:
     """Endpoints g_0 < ... < g_8; cell i = [g_i, g_{i+1}); a timespan with grid endpoints is a set of cells."""
 
@@ -75,7 +89,10 @@ def run(ctx: Ctx):
 
     ctx.assumptions += [
         "SQLite evaluates integer comparisons and AND with NULL as Kleene logic (checked against the model on every run)",
-        "floating-point error of the two-part Julian-date arithmetic is below 1/2 ns (hypothesis of the conv_*_partial theorems; sampled)",
+        "conversion: every binary64 operation of nsec_to_astropy / astropy_to_nsec (incl. astropy day_frac/two_sum/two_product/split, numpy round) "
+        "is round-to-nearest-even of the exact result (Flocq FLT(-1074,53) model, no overflow); the operation SEQUENCE is Model/TimeConv.v, "
+        "compared bit for bit (float.hex) with Python on every run through its primitive-float instance",
+        "Coq primitive floats (vm_compute) implement IEEE 754 binary64 (used by the correspondence only, not by the theorems)",
         "translator harness/translators/timespan.py (Python ast -> Gallina) is trusted; its output is also compared with the implementation on the grid",
     ]
     ctx.cov["rule"] = (
@@ -86,7 +103,7 @@ def run(ctx: Ctx):
     )
     # ---- tie T + obligations
     gen_ok = ctx.regen("timespan", tr.translate)
-    props_ok = ctx.build_props(extra_targets=["Model/TimespanCheck.vo", "Model/TimespanCheckGen.vo"])
+    props_ok = ctx.build_props(extra_targets=["Model/TimespanCheck.vo", "Model/TimespanCheckGen.vo", "Model/TimeConvPrim.vo"])
     if not props_ok:
         # the hand checkers must still be available for the search
         from harness.common import coq_make
@@ -247,6 +264,7 @@ def run(ctx: Ctx):
             for i in (bad or [])[:5]:
                 ctx.disagreement(name, {"case": cases[i]}, "regenerated model differs from implementation (translator or SQL semantics)")
 
+    ctx.log("timespan grids compared")
     _conversion(ctx, conv)
 
 
@@ -316,20 +334,37 @@ def _serial(ctx: Ctx, g: Grid, objs):
 def _conversion(ctx: Ctx, conv):
     import astropy.time
     import warnings
+    import numpy as np
+    from astropy.time import TimeDelta
+    from astropy.time import utils as atu
 
     mx = conv.max_nsec
     r = ctx.rng
     vals = set(range(0, 20000 if ctx.quick else 300000))
     day = 86400 * 10**9
+    structured = set(range(0, 1000 if ctx.quick else 20000))
+    w = 10 if ctx.quick else 30   # half-width of the bit-exact window around day / half-day boundaries
     for d in r.sample(range(1, mx // day), 40 if ctx.quick else 400):
-        vals.update(range(d * day - 30, d * day + 30))
+        b = set(range(d * day - 30, d * day + 30))
+        # half-day boundaries: jd2 crosses +-0.5, the branchy corner of astropy's day_frac
+        b.update(range(d * day + day // 2 - 30, d * day + day // 2 + 30))
+        vals |= b
+        structured.update(range(d * day - w, d * day + w))
+        structured.update(range(d * day + day // 2 - w, d * day + day // 2 + w))
     for k in range(1, 62):
-        vals.update(x for x in range(2**k - 3, 2**k + 4) if 0 <= x <= mx)
+        b = {x for x in range(2**k - 3, 2**k + 4) if 0 <= x <= mx}
+        vals |= b
+        structured |= b
     vals.update(range(mx - 2000, mx + 1))
-    vals.update(r.randrange(0, mx) for _ in range(20000 if ctx.quick else 400000))
+    structured.update(range(mx - (150 if ctx.quick else 2000), mx + 1))
+    rnd = [r.randrange(0, mx) for _ in range(20000 if ctx.quick else 400000)]
+    vals.update(rnd)
+    structured.update(rnd[: 1500 if ctx.quick else 60000])
     vals = sorted(vals)
     prev_ns, prev_t = None, None
     bad = 0
+    rt_cases, rt_meta = [], []      # bit-exact observations for the primitive-float model
+    ds_cases, df_cases = [], []     # astropy helpers called directly on the pipeline's intermediates
     for n in vals:
         t = conv.nsec_to_astropy(n)
         back = conv.astropy_to_nsec(t)
@@ -340,15 +375,48 @@ def _conversion(ctx: Ctx, conv):
         if prev_t is not None and not (prev_t < t):
             ctx.oracle_fail("conv-order", {"n1": prev_ns, "n2": n}, "nsec_to_astropy is not strictly increasing")
         prev_ns, prev_t = n, t
+        if n in structured:
+            j1, j2 = t._time.jd1, t._time.jd2
+            td = TimeDelta(j1, j2, format="jd", scale="tai")
+            dl = t - conv.epoch
+            rt_cases.append(f"({cz(n)}, {cfl2(j1, j2)}, {cfl2(td._time.jd1, td._time.jd2)}, "
+                            f"{cfl2(dl._time.jd1, dl._time.jd2)}, {cz(back)})")
+            rt_meta.append({"nsec": n, "jd": [float(j1).hex(), float(j2).hex()], "back": back})
+            if len(ds_cases) < 3000 and (n < 300 or len(rt_cases) % 5 == 0):
+                x, e = atu.two_sum(j1, j2)
+                ds_cases.append(f"({cfl(j1)}, {cfl(j2)}, {cfl2(x, e)})")
+                b1, b2 = td._time.jd1 - conv.epoch._time.jd1, td._time.jd2 - conv.epoch._time.jd2
+                o1, o2 = atu.day_frac(b1, b2)
+                df_cases.append(f"({cfl(b1)}, {cfl(b2)}, None, {cfl2(o1, o2)})")
+                o1, o2 = atu.day_frac(j1, j2, divisor=1.0)
+                df_cases.append(f"({cfl(j1)}, {cfl(j2)}, Some {cfl(1.0)}, {cfl2(o1, o2)})")
         if bad > 3:
             break
     ctx.hist("conversion", "roundtrip_values", len(vals))
+    ctx.hist("conversion", "bit_exact_roundtrips", len(rt_cases))
+    ctx.log(f"conversion: {len(vals)} round trips on the implementation, {len(rt_cases)} recorded bit for bit")
     ctx._nontrivial.update(f"conv{n}" for n in vals[:50000])
     # astropy -> nsec against exact rational arithmetic on the two-part JD, several formats/scales
     epoch = conv.epoch
     ej = Fraction(epoch.tai.jd1) + Fraction(epoch.tai.jd2)
     NPD = 86400 * 10**9
     samples = []
+    tn_cases = []
+
+    def to_nsec_case(t_any):
+        """observation of astropy_to_nsec for the primitive-float model: tai (jd1, jd2), clamped delta, result"""
+        value = t_any.tai
+        ns = conv.astropy_to_nsec(t_any)
+        v = value
+        if v < conv.epoch:
+            v = conv.epoch
+        elif v > conv.max_time:
+            v = conv.max_time
+        dl = v - conv.epoch
+        if not ctx.quick or len(tn_cases) < 40 or r.random() < 0.4:
+            tn_cases.append(f"({cfl2(value._time.jd1, value._time.jd2)}, {cfl2(dl._time.jd1, dl._time.jd2)}, {cz(ns)})")
+        return ns
+
     with warnings.catch_warnings():
         warnings.simplefilter("ignore")
         for _ in range(300 if ctx.quick else 5000):
@@ -364,15 +432,16 @@ def _conversion(ctx: Ctx, conv):
                     samples.append((fmt, scale, t2))
         # out of range and boundary times
         for iso, want in (("1960-01-01 00:00:00", 0), ("1969-12-31 23:59:59.999999999", 0), ("2100-01-01 00:00:00", mx),
-                          ("2150-06-01 00:00:00", mx), ("1970-01-01 00:00:00", 0)):
+                          ("2150-06-01 00:00:00", mx), ("1970-01-01 00:00:00", 0), ("2099-12-31 23:59:59.999999999", mx - 1),
+                          ("2100-01-01 00:00:00.000000001", mx), ("1970-01-01 00:00:00.000000001", 1)):
             t = astropy.time.Time(iso, format="iso", scale="tai")
-            got = conv.astropy_to_nsec(t)
+            got = to_nsec_case(t)
             ctx.count()
             if got != want:
                 ctx.oracle_fail(f"conv-clamp:{iso}", {"time": iso, "got": got, "want": want}, "out-of-range time not clamped to the supported range")
         seen = []
         for fmt, scale, t2 in samples:
-            ns = conv.astropy_to_nsec(t2)
+            ns = to_nsec_case(t2)
             tt = t2.tai
             exact = (Fraction(tt.jd1) + Fraction(tt.jd2) - ej) * NPD
             ctx.count()
@@ -386,3 +455,72 @@ def _conversion(ctx: Ctx, conv):
             if n1 > n2:
                 ctx.oracle_fail("conv-monotone", {"exact1": float(e1), "n1": n1, "exact2": float(e2), "n2": n2}, "astropy_to_nsec is not order preserving")
     ctx.sample({"conversion_values": vals[:5] + vals[-3:], "formats_checked": len(samples)})
+
+    # ---- the helpers on arbitrary doubles (two_product / split are only exercised with 1.0 by the pipeline)
+    tp_cases, sp_cases, ri_cases = [], [], []
+    for _ in range(600 if ctx.quick else 6000):
+        a = r.choice([r.uniform(-3e6, 3e6), r.uniform(-1, 1), float(r.randrange(-10**7, 10**7)), r.uniform(-1e-9, 1e-9)])
+        b = r.choice([1.0, r.uniform(-2, 2), 86400.0, float(NPD), r.uniform(-1e-9, 1e-9)])
+        x, e = atu.two_sum(a, b)
+        ds_cases.append(f"({cfl(a)}, {cfl(b)}, {cfl2(x, e)})")
+        x, e = atu.two_product(a, b)
+        tp_cases.append(f"({cfl(a)}, {cfl(b)}, {cfl2(x, e)})")
+        h, l = atu.split(a)
+        sp_cases.append(f"({cfl(a)}, {cfl2(h, l)})")
+        if abs(a) <= 1e7 and abs(b) <= 2:
+            o1, o2 = atu.day_frac(a, b)
+            df_cases.append(f"({cfl(a)}, {cfl(b)}, None, {cfl2(o1, o2)})")
+            o1, o2 = atu.day_frac(a, b, divisor=1.0)
+            df_cases.append(f"({cfl(a)}, {cfl(b)}, Some {cfl(1.0)}, {cfl2(o1, o2)})")
+        for v in (a, float(int(a)) + r.choice([0.5, -0.5, 0.0]), b):
+            ri_cases.append(f"({cfl(v)}, {cfl(np.round(v))})")
+
+    ctx.log(f"conversion: {len(tn_cases)} astropy_to_nsec observations, {len(df_cases)} day_frac, {len(ds_cases)} two_sum")
+    # ---- model vs implementation, bit for bit (vm_compute over Coq's primitive binary64 floats)
+    hdrf = ("From Coq Require Import ZArith List PrimFloat.\nFrom V Require Import Model.TimeConv Model.TimeConvPrim.\n"
+            "Import ListNotations.\n")
+    ctx.sample({"conv_bit_exact_case": rt_cases[len(rt_cases) // 2], "meta": rt_meta[len(rt_meta) // 2]})
+    broken = False
+    for name, cases, chk in (
+        ("conv_roundtrip", rt_cases, "chk_conv_roundtrip"), ("conv_to_nsec", tn_cases, "chk_conv_to_nsec"),
+        ("conv_two_sum", ds_cases, "chk_two_sum"), ("conv_two_product", tp_cases, "chk_two_product"),
+        ("conv_split", sp_cases, "chk_split"), ("conv_day_frac", df_cases, "chk_day_frac"), ("conv_rint", ri_cases, "chk_rint"),
+    ):
+        badi = ctx.coq_cases(name, hdrf, cases, chk, shard=3000)
+        if badi is None:
+            broken = True
+        for i in (badi or [])[:5]:
+            broken = True
+            ctx.disagreement(name, {"case": cases[i], "meta": rt_meta[i] if name == "conv_roundtrip" else None},
+                             "binary64 operation sequence of the model differs from the implementation (bit-for-bit)")
+    ctx.log("conversion: primitive-float model compared")
+    if broken or ctx.broken:
+        _conv_search(ctx, conv)
+        ctx.log("conversion: deep search done")
+
+
+def _conv_search(ctx: Ctx, conv):
+    """Something is broken (model/implementation mismatch or an unproved obligation): look harder for a
+    nanosecond value whose round trip is not exact / not monotone on the implementation."""
+    r = ctx.rng
+    mx = conv.max_nsec
+    day = 86400 * 10**9
+    cand = [r.randrange(0, mx) for _ in range(100000)]
+    for d in r.sample(range(1, mx // day), 300):
+        cand.extend(range(d * day - 50, d * day + 50))
+        cand.extend(range(d * day + day // 2 - 50, d * day + day // 2 + 50))
+    cand.sort()
+    prev_n, prev_t = None, None
+    found = 0
+    for n in cand:
+        t = conv.nsec_to_astropy(n)
+        back = conv.astropy_to_nsec(t)
+        if back != n:
+            found += 1
+            ctx.oracle_fail(f"conv-roundtrip:{'lo' if n < 10**6 else 'hi'}", {"nsec": n, "back": back}, "nsec -> astropy -> nsec is not exact (deep search)")
+        if prev_t is not None and prev_n != n and not (prev_t < t):
+            found += 1
+            ctx.oracle_fail("conv-order", {"n1": prev_n, "n2": n}, "nsec_to_astropy is not strictly increasing (deep search)")
+        prev_n, prev_t = n, t
+        if found > 3:
+            break
